@@ -395,6 +395,7 @@ class StringDataType(ElementaryDataType):
 
     len_type = None  #: data type of the string length
     encoding = "iso-8859-1"  #: encoding of string data
+    char_size = 1  #: number of bytes per character
 
     @classmethod
     def _encode(cls, value: str, *args, **kwargs) -> bytes:
@@ -405,7 +406,7 @@ class StringDataType(ElementaryDataType):
         str_len = cls.len_type.decode(stream)
         if str_len == 0:
             return ""
-        str_data = cls._stream_read(stream, str_len)
+        str_data = cls._stream_read(stream, str_len * cls.char_size)
 
         return str_data.decode(cls.encoding)
 
@@ -530,6 +531,7 @@ class STRING2(StringDataType):
     code = 0xD5  #: 0xD5
     len_type = UINT
     encoding = "utf-16-le"
+    char_size = 2
 
 
 class FTIME(DINT):
